@@ -1,5 +1,6 @@
 (* C22 — public API calls never modify the caller's arguments.
-   Statements only; proofs in Proofs/OwnershipP.v; the ownership skeletons of the API functions (hand-written from
+   Statements only; proofs in Proofs/OwnershipP.v; skeletons faithful to the CURRENT code (validate_before_fix = the code
+   before the repair, regression witness only); the ownership skeletons of the API functions (hand-written from
    API/__init__.py, API/_InternalApi.py, files/parser/__init__.py, duckdb_transpiler/io/_io.py) in Model/Ownership.v. *)
 From Coq Require Import List Bool Arith.
 Import ListNotations.
@@ -37,29 +38,32 @@ Theorem C22_generate_sdmx_skeleton_frame : forall nc k,
   caller_view nc (run_prefix k generate_sdmx_o (oinit nc)) = repeat [] nc.
 Proof. exact generate_sdmx_skeleton_frame. Qed.
 
-(* validate_dataset as the property wants it (validation on a copy) *)
-Theorem C22_validate_dataset_spec_frame : forall cs k,
-  caller_view (ncaller (length cs)) (run_prefix k (validate_spec cs) (oinit (ncaller (length cs)))) = repeat [] (ncaller (length cs)).
-Proof. exact validate_spec_frame. Qed.
+(* validate_dataset, current code (validation on a renamed copy), every number of frames, every input class *)
+Theorem C22_validate_dataset_skeleton_frame : forall cs k,
+  caller_view (ncaller (length cs)) (run_prefix k (validate_impl cs) (oinit (ncaller (length cs)))) = repeat [] (ncaller (length cs)).
+Proof. exact validate_impl_frame. Qed.
 
-(* ---- the faithful skeleton of validate_dataset: exactly what happens to the caller's frame, per input class ------- *)
-Theorem C22_validate_dataset_impl_view : forall c,
-  caller_view (ncaller 1) (run_all (validate_impl [c]) (oinit (ncaller 1))) = [[]; []; []; []; []; tags_of c].
-Proof. exact validate_impl_view. Qed.
+(* ---- regression witnesses: validate_dataset BEFORE the repair commit.  Exactly what happened to the caller's frame,
+   per input class; the correspondence evaluates this skeleton next to the current one: an engine that matches it again
+   has regressed (and the modification is reported as a violation). *)
+Theorem C22_before_fix_validate_dataset_view : forall c,
+  caller_view (ncaller 1) (run_all (validate_before_fix [c]) (oinit (ncaller 1))) = [[]; []; []; []; []; tags_of c].
+Proof. exact validate_before_fix_view. Qed.
 
-(* REFUTED on the unchanged code *)
-Theorem C22_validate_dataset_refuted :
-  caller_view (ncaller 1) (run_all (validate_impl [mkDf true true true]) (oinit (ncaller 1)))
+(* the old skeleton violated the frame premise and modified labels, columns and values *)
+Theorem C22_before_fix_validate_dataset_refuted :
+  caller_view (ncaller 1) (run_all (validate_before_fix [mkDf true true true]) (oinit (ncaller 1)))
     = [[]; []; []; []; []; [TValues; TAddCol; TCols; TColsId]] /\
-  safe (taint0 (ncaller 1)) (validate_impl [plain]) = false.
-Proof. exact validate_impl_refuted. Qed.
+  safe (taint0 (ncaller 1)) (validate_before_fix [plain]) = false.
+Proof. exact validate_before_fix_refuted. Qed.
 
-Theorem C22_validate_dataset_mutates_on_failure_refuted :
-  caller_view (ncaller 2) (run_prefix (5 + block_len + 11) (validate_impl [mkDf true false false; plain]) (oinit (ncaller 2)))
+Theorem C22_before_fix_validate_dataset_mutates_on_failure :
+  caller_view (ncaller 2) (run_prefix (5 + block_len + 11) (validate_before_fix [mkDf true false false; plain]) (oinit (ncaller 2)))
     = [[]; []; []; []; []; [TCols; TColsId]; [TColsId]].
-Proof. exact validate_impl_mutates_on_failure_refuted. Qed.
+Proof. exact validate_before_fix_mutates_on_failure_refuted. Qed.
 
-(* model only (URL datapoints cannot be reached offline) *)
+(* current code, model only (URL datapoints cannot be reached offline; nothing reproduced, not a finding): run() with
+   http(s) datapoints stores the fetched frame into / deletes keys from the caller's datapoints dict *)
 Theorem C22_run_url_refuted :
   caller_view (ncaller 0) (run_all (run_impl_o true []) (oinit (ncaller 0))) = [[]; [TDictKeys]; []; []; []] /\
   safe (taint0 (ncaller 0)) (run_impl_o true []) = false.
@@ -81,8 +85,8 @@ Print Assumptions C22_run_sdmx_skeleton_frame.
 Print Assumptions C22_semantic_analysis_skeleton_frame.
 Print Assumptions C22_prettify_skeleton_frame.
 Print Assumptions C22_generate_sdmx_skeleton_frame.
-Print Assumptions C22_validate_dataset_spec_frame.
-Print Assumptions C22_validate_dataset_impl_view.
-Print Assumptions C22_validate_dataset_refuted.
-Print Assumptions C22_validate_dataset_mutates_on_failure_refuted.
+Print Assumptions C22_validate_dataset_skeleton_frame.
+Print Assumptions C22_before_fix_validate_dataset_view.
+Print Assumptions C22_before_fix_validate_dataset_refuted.
+Print Assumptions C22_before_fix_validate_dataset_mutates_on_failure.
 Print Assumptions C22_run_url_refuted.
